@@ -91,6 +91,28 @@ func verifH_C20_request_id() {
 	}
 }
 
+// The 128 is a count of bytes, whatever characters they spell.
+//
+//verif:stub crypto/rand.Read = verifRandRead
+//verif:bound X-Request-ID of 127..130 bytes: 'x' everywhere except two adjacent ARBITRARY bytes (0x00..0xFF, so every two-byte UTF-8 character, every invalid sequence and every control byte occurs) placed at the start of, inside, or at the end of the interior (the first and last byte stay 'x': Unicode white space at the trimmed edges is outside the claim)
+func verifH_C20_request_id_bytes() {
+	n := 127 + verifChoice("id.len", 4)
+	at := []int{1, 60, n - 3}[verifChoice("id.at", 3)]
+	inner := verifNondetString("id.inner", 2)
+	id := strings.Repeat("x", at) + inner + strings.Repeat("x", n-at-2)
+	r := &http.Request{Header: http.Header{}}
+	r.Header.Set(requestIDHeader, id)
+	got := resolveRequestID(r)
+	verifReach("resolved-bytes")
+	if n <= 128 {
+		verifReach("echoed-bytes")
+		verifAssert(got == id, "an id of at most 128 bytes is echoed, whatever its bytes spell")
+	} else {
+		verifReach("minted-bytes")
+		verifAssert(verifC20IsHex16(got), "an id of more than 128 bytes is replaced by 16 fresh lower-case hex characters, however few characters it has")
+	}
+}
+
 type verifC20RW struct {
 	hdr        http.Header
 	status     int
